@@ -236,17 +236,24 @@ def run(chk):
     inc = [s for s in ast.walk(red) if isinstance(s, ast.AugAssign) and norm.raw(s) == "redirects += 1"]
     if inc and tm and inc[0].lineno < tm[0].lineno:
         chk.ok("C17.limit", inc[0], "the counter is incremented before it is compared (at most max_redirects requests)")
-    # scheme filter
-    try:
-        schemes = set(folder.name(repo.module(CLIENT), "HTTP_AND_EMPTY_SCHEMA_SET"))
-    except NotConst as e:
-        raise AnalysisError(f"C17.limit: {e}")
+    # scheme filter: whatever collection the refusal tests membership in must be a constant equal to {http, https, ""} - a set that comes from
+    # somewhere else (the connector's allowed schemes also admit ws / wss / tcp / unix for ws_connect() and connector URLs) lets such a
+    # Location through as an ordinary HTTP hop
     nh = [n for n, c in K.raises_in(red) if c == "NonHttpUrlRedirectClientError"]
     nxt = [s for s in ast.walk(red) if isinstance(s, ast.Assign) and norm.raw(s.targets[0]) == "url"]
-    if schemes == {"http", "https", ""} and nh and PC.has_lit(PC.pc(nh[0], stop=red), "$S in HTTP_AND_EMPTY_SCHEMA_SET", False) is not None and nxt and nh[0].lineno < nxt[0].lineno:
+    bset = PC.has_lit(PC.pc(nh[0], stop=red), "$S in $SET", False) if nh else None
+    schemes = None
+    if bset is not None:
+        try:
+            schemes = set(folder.eval(repo.module(CLIENT), bset["SET"]))
+        except (NotConst, TypeError, AttributeError):
+            schemes = None
+    if schemes == {"http", "https", ""} and nxt and nh[0].lineno < nxt[0].lineno:
         chk.ok("C17.limit", nh[0], "only http / https / scheme-less Locations are followed; the refusal precedes the URL switch")
     else:
-        chk.violation("C17.limit", red, "if scheme not in HTTP_AND_EMPTY_SCHEMA_SET: raise NonHttpUrlRedirectClientError", f"schemes={sorted(schemes)}", "non-HTTP redirect targets are followed")
+        shown = sorted(schemes) if schemes is not None else (norm.raw(bset["SET"]) + " (not a constant of this module)" if bset is not None else "no membership test")
+        chk.violation("C17.limit", nh[0] if nh else red, "if scheme not in HTTP_AND_EMPTY_SCHEMA_SET: raise NonHttpUrlRedirectClientError", f"schemes={shown}",
+                      "non-HTTP redirect targets are followed: the refusal does not test the redirect scheme against the fixed set {http, https, ''} (a connector's allowed_protocol_schema_set also contains ws, wss and tcp / unix / npipe, so `Location: ws://...` or `tcp://...` would be requested like an HTTP URL)")
     sd = norm.fn_defs(rq.node).defs.get("scheme", [])
     if sd and norm.raw(sd[0][1]) == "parsed_redirect_url.scheme":
         chk.ok("C17.limit", sd[0][0], "the tested scheme is the redirect target's")
